@@ -489,6 +489,13 @@ class Engine(object):
                     e = self.b_or(e, self.compare(ast.Eq(), l, x))
                 return e if t is ast.In else self.b_not(e)
             raise Unsupported("in on symbolic container")
+        if (is_sym(l) and z3.is_fp(l)) or (is_sym(r) and z3.is_fp(r)):
+            # IEEE comparison semantics (what Python's float comparison does): -0.0 == 0.0, NaN unordered
+            srt = l.sort() if (is_sym(l) and z3.is_fp(l)) else r.sort()
+            a = l if (is_sym(l) and z3.is_fp(l)) else z3.FPVal(float(l), srt)
+            b = r if (is_sym(r) and z3.is_fp(r)) else z3.FPVal(float(r), srt)
+            return {ast.Eq: z3.fpEQ, ast.NotEq: z3.fpNEQ, ast.Lt: z3.fpLT, ast.LtE: z3.fpLEQ,
+                    ast.Gt: z3.fpGT, ast.GtE: z3.fpGEQ}[t](a, b)
         if (is_sym(l) and z3.is_bool(l)) and (isinstance(r, bool) or (is_sym(r) and z3.is_bool(r))):
             a, b = l, (z3.BoolVal(r) if isinstance(r, bool) else r)
         else:
